@@ -472,6 +472,12 @@ private:
         n.write_bytes_be(signum, data);
         std::size_t length = data.size();
 
+        if (pack_strings_ && length >= jsoncons::cbor::detail::min_length_for_stringref(next_stringref_))
+        {
+            // the byte string below takes a stringref index in every decoder
+            ++next_stringref_;
+        }
+
         if (is_neg)
         {
             write_tag(3);
